@@ -60,6 +60,17 @@ def h_callback(e, st, o, name, args, kwargs):
     yield st.ghost_append("callbacks", TupleV([o] + list(args))), NONE
 
 
+def h_time_fn(e, st, o, name, args, kwargs):
+    e.used_assumptions.add("time source: one ghost real `now` per verified call (the clock does not advance inside a call)")
+    if name != "__call__":
+        raise Unsupported(f"time_fn.{name}")
+    yield st, z3.Real("$now")
+
+
+def h_sym_seq(e, st, o, name, args, kwargs):
+    raise Unsupported(f"symbolic sequence .{name}")
+
+
 def h_timer(e, st, o, name, args, kwargs):
     e.used_assumptions.add("threading.Timer: a pending call recorded in a ghost log; start/cancel never raise")
     if name == "start":
@@ -148,6 +159,13 @@ def x_uniform(e, st, args, kwargs):
     yield st.assume(z3.Or(z3.And(a <= r, r <= b), z3.And(b <= r, r <= a))), r
 
 
+def x_randint(e, st, args, kwargs):
+    e.used_assumptions.add("random.randint(a, b): arbitrary integer in [a, b]")
+    a, b = e.to_int(args[0]), e.to_int(args[1])
+    r = e.T.const(e.fresh("randint"))
+    yield st.assume(z3.And(a <= r, r <= b)), r
+
+
 def x_cast(e, st, args, kwargs):
     yield st, args[1]
 
@@ -201,14 +219,15 @@ def install_default_models(e):
     e.opaque_handlers.update({"lock": h_lock, "rlock": h_lock, "logger": h_logger, "event": h_event,
                               "link_layer": h_link_layer, "callback": h_callback, "timer": h_timer,
                               "thread": h_thread, "cbf_buffer": make_keyed_map_handler(_fresh_timer),
-                              "loc_t": make_keyed_map_handler(_fresh_any)})
+                              "loc_t": make_keyed_map_handler(_fresh_any), "time_fn": h_time_fn,
+                              "nearby_map": make_keyed_map_handler(_fresh_any)})
     e.external_handlers.update({
         "threading.Lock": x_lock, "threading.RLock": x_lock, "threading.Event": x_event, "threading.Timer": x_timer,
         "threading.Thread": x_thread,
         "math.sin": _uf1("sin"), "math.cos": _uf1("cos"), "math.tan": _uf1("tan"), "math.atan": _uf1("atan"),
         "math.asin": _uf1("asin"), "math.radians": x_radians, "math.sqrt": x_sqrt,
         "typing.cast": x_cast, "dataclasses.replace": x_replace, "collections.deque": x_deque,
-        "random.uniform": x_uniform,
+        "random.uniform": x_uniform, "random.randint": x_randint, "time.time": x_time,
         "flexstack.utils.time_service:TimeService.time": x_time,
     })
 
@@ -265,56 +284,88 @@ def _map_set(st, o, idx, key, present, value):
     return st._clone(ghost=g)
 
 
+def _map_find_alts(e, st, o, key):
+    """yield (state, index | None): which tracked entry `key` denotes, splitting on undecidable aliasing"""
+    ents = _map_entries(st, o)
+
+    def go(st, i):
+        if i == len(ents):
+            yield st, None
+            return
+        k = ents[i][0]
+        same = _fold_eq(e, st, k, key)
+        t = None
+        if same is None:
+            t = e.eq(st, k, key)
+            if e.valid(st.pc, t):
+                same = True
+            elif e.valid(st.pc, z3.Not(t)):
+                same = False
+        if same is True:
+            yield st, i
+        elif same is False:
+            yield from go(st, i + 1)
+        else:
+            yield st.assume(t), i
+            yield from go(st.assume(z3.Not(t)), i + 1)
+    yield from go(st, 0)
+
+
 def make_keyed_map_handler(fresh_value):
     """dict whose keys are symbolic: only the entries touched on a path are tracked; an untouched key is present or
     absent arbitrarily and holds an arbitrary value of the map's value kind"""
     def lookup(e, st, o, key):
-        idx = _map_find(e, st, o, key)
-        if idx is None:
-            p = z3.Bool(e.fresh("map_has"))
-            st, v = fresh_value(e, st)
-            st = _map_set(st, o, None, key, p, v)
-            idx = len(_map_entries(st, o)) - 1
-        return st, idx
+        for s1, idx in _map_find_alts(e, st, o, key):
+            if idx is None:
+                p = z3.Bool(e.fresh("map_has"))
+                s1, v = fresh_value(e, s1)
+                s1 = _map_set(s1, o, None, key, p, v)
+                idx = len(_map_entries(s1, o)) - 1
+            yield s1, idx
 
     def h(e, st, o, name, args, kwargs):
         e.used_assumptions.add("dicts keyed by symbolic keys (CBF buffer, LS maps) are tracked entry-wise; untouched keys are arbitrary")
         if name == "__contains__":
-            st, idx = lookup(e, st, o, args[0])
-            yield st, _map_entries(st, o)[idx][1]
+            for s1, idx in lookup(e, st, o, args[0]):
+                yield s1, _map_entries(s1, o)[idx][1]
         elif name in ("__getitem__", "get", "pop"):
-            st, idx = lookup(e, st, o, args[0])
-            k, p, v = _map_entries(st, o)[idx]
-            if e.feasible(st.pc, p):
-                s1 = st.assume(p)
-                if name == "pop":
-                    s1 = _map_set(s1, o, idx, k, z3.BoolVal(False), v)
-                yield s1, v
-            if e.feasible(st.pc, z3.Not(p)):
-                s2 = st.assume(z3.Not(p))
-                if name == "__getitem__" or (name == "pop" and len(args) < 2):
-                    yield s2, RaiseV(e.exc("KeyError", args[0]))
-                else:
-                    yield s2, (args[1] if len(args) > 1 else NONE)
+            for s0, idx in lookup(e, st, o, args[0]):
+                k, p, v = _map_entries(s0, o)[idx]
+                if e.feasible(s0.pc, p):
+                    s1 = s0.assume(p)
+                    if name == "pop":
+                        s1 = _map_set(s1, o, idx, k, z3.BoolVal(False), v)
+                    yield s1, v
+                if e.feasible(s0.pc, z3.Not(p)):
+                    s2 = s0.assume(z3.Not(p))
+                    if name == "__getitem__" or (name == "pop" and len(args) < 2):
+                        yield s2, RaiseV(e.exc("KeyError", args[0]))
+                    else:
+                        yield s2, (args[1] if len(args) > 1 else NONE)
         elif name == "__setitem__":
-            idx = _map_find(e, st, o, args[0])
-            yield _map_set(st, o, idx, args[0], z3.BoolVal(True), args[1]), NONE
+            for s1, idx in _map_find_alts(e, st, o, args[0]):
+                yield _map_set(s1, o, idx, args[0], z3.BoolVal(True), args[1]), NONE
         elif name == "__delitem__":
-            st, idx = lookup(e, st, o, args[0])
-            k, p, v = _map_entries(st, o)[idx]
-            if e.feasible(st.pc, p):
-                yield _map_set(st.assume(p), o, idx, k, z3.BoolVal(False), v), NONE
-            if e.feasible(st.pc, z3.Not(p)):
-                yield st.assume(z3.Not(p)), RaiseV(e.exc("KeyError", args[0]))
+            for s0, idx in lookup(e, st, o, args[0]):
+                k, p, v = _map_entries(s0, o)[idx]
+                if e.feasible(s0.pc, p):
+                    yield _map_set(s0.assume(p), o, idx, k, z3.BoolVal(False), v), NONE
+                if e.feasible(s0.pc, z3.Not(p)):
+                    yield s0.assume(z3.Not(p)), RaiseV(e.exc("KeyError", args[0]))
         elif name == "items":
             yield st, Opaque("keyed_items", None, {"map": o})
+        elif name in ("values", "keys"):
+            yield st, Opaque("keyed_" + name, None, {"map": o})
+        elif name == "__len__":
+            n = e.T.const(e.fresh("map_len"))
+            yield st.assume(n >= e.intval(0)), n
         elif name == "setdefault":
-            st, idx = lookup(e, st, o, args[0])
-            k, p, v = _map_entries(st, o)[idx]
-            if e.feasible(st.pc, p):
-                yield st.assume(p), v
-            if e.feasible(st.pc, z3.Not(p)):
-                yield _map_set(st.assume(z3.Not(p)), o, idx, k, z3.BoolVal(True), args[1]), args[1]
+            for s0, idx in lookup(e, st, o, args[0]):
+                k, p, v = _map_entries(s0, o)[idx]
+                if e.feasible(s0.pc, p):
+                    yield s0.assume(p), v
+                if e.feasible(s0.pc, z3.Not(p)):
+                    yield _map_set(s0.assume(z3.Not(p)), o, idx, k, z3.BoolVal(True), args[1]), args[1]
         else:
             raise Unsupported(f"keyed map .{name}")
     return h
